@@ -53,12 +53,15 @@ pub enum WMode {
     AllReal,
     /// NaN and real mixed, including 0, negative, huge and infinite weights
     Wild,
+    /// positive reals that are one or two ulps apart, or of tiny magnitude
+    Ulps,
 }
 
 pub fn draw_weight(mode: WMode, rng: &mut Rng) -> f64 {
     match mode {
         WMode::AllNaN => f64::NAN,
         WMode::AllReal => rng.range(1, 20) as f64 / 4.0,
+        WMode::Ulps => *rng.pick(&[0.1, 0.2, 0.1 + 0.2, 0.3, 0.7, 0.7000000000000001, 0.6999999999999998, 1e-20, 2e-20, 3e-20, 1e-20 + 2e-20, 2.0, 2.0000000000000004]),
         WMode::Wild => match rng.below(10) {
             0 => f64::NAN,
             1 => 0.0,
@@ -95,7 +98,7 @@ pub fn gen_history(rng: &mut Rng, len: usize, wmode: WMode, tuples_ok: bool) -> 
                     1 => prev.w + 0.25 * rng.range(1, 3) as f64,
                     _ => prev.w,
                 },
-                WMode::Wild => draw_weight(wmode, rng),
+                WMode::Wild | WMode::Ulps => draw_weight(wmode, rng),
             };
             MEdge { u, v, w, attr }
         } else if rng.chance(1, 8) {
@@ -127,8 +130,19 @@ pub fn gen_history(rng: &mut Rng, len: usize, wmode: WMode, tuples_ok: bool) -> 
             }
         }
     }
+    if rng.chance(1, 25) {
+        // one large batch (64..70 edges) over the small universe: many repeated pairs
+        let cnt = rng.range(64, 70);
+        let mut es = vec![];
+        for _ in 0..cnt {
+            let e = draw_edge(rng, &added_edges);
+            added_edges.push(e.clone());
+            es.push(e);
+        }
+        ops.push(Op::AddEdges(es));
+    }
     while ops.len() < len {
-        let allow_tuple = tuples_ok && wmode != WMode::AllReal;
+        let allow_tuple = tuples_ok && wmode != WMode::AllReal && wmode != WMode::Ulps;
         match rng.below(12) {
             0 => {
                 let n = rng.pick(&uni).clone();
@@ -210,6 +224,8 @@ pub struct Lock {
     pub names: Vec<String>,
     /// policy branches this history exercised
     pub tags: BTreeSet<String>,
+    /// the very same Arc<Edge> is handed to the graph again when an identical edge is re-added
+    pub arcs: std::collections::HashMap<String, std::sync::Arc<graphrs::Edge<String, i32>>>,
 }
 
 fn state_matches(g: &G, m: &Model) -> bool {
@@ -304,6 +320,26 @@ pub fn model_apply(cands: &[Model], op: &Op) -> Vec<(Option<Outcome>, Model)> {
 }
 
 pub fn real_apply(g: &mut G, op: &Op) -> Result<Result<(), graphrs::Error>, ctx::Caught> {
+    let mut none = std::collections::HashMap::new();
+    real_apply_cached(g, op, &mut none, false)
+}
+
+pub fn real_apply_cached(
+    g: &mut G,
+    op: &Op,
+    arcs: &mut std::collections::HashMap<String, std::sync::Arc<graphrs::Edge<String, i32>>>,
+    reuse: bool,
+) -> Result<Result<(), graphrs::Error>, ctx::Caught> {
+    let mut arc_of = |e: &MEdge| -> std::sync::Arc<graphrs::Edge<String, i32>> {
+        if !reuse {
+            return e.to_real();
+        }
+        let key = format!("{:?}>{:?}|{}|{:?}", e.u, e.v, wkey(e.w), e.attr);
+        if arcs.contains_key(&key) {
+            ctx::count("reach:same-arc-passed-again");
+        }
+        arcs.entry(key).or_insert_with(|| e.to_real()).clone()
+    };
     match op {
         Op::AddNode(n, a) => guard("add_node", || {
             g.add_node(mnode(n, *a));
@@ -313,9 +349,15 @@ pub fn real_apply(g: &mut G, op: &Op) -> Result<Result<(), graphrs::Error>, ctx:
             g.add_nodes(list.iter().map(|(n, a)| mnode(n, *a)).collect());
             Ok(())
         }),
-        Op::AddEdge(e) => guard("add_edge", || g.add_edge(e.to_real())),
+        Op::AddEdge(e) => {
+            let a = arc_of(e);
+            guard("add_edge", || g.add_edge(a))
+        }
         Op::AddEdgeTuple(u, v) => guard("add_edge_tuple", || g.add_edge_tuple(u.clone(), v.clone())),
-        Op::AddEdges(es) => guard("add_edges", || g.add_edges(es.iter().map(|e| e.to_real()).collect())),
+        Op::AddEdges(es) => {
+            let v: Vec<_> = es.iter().map(|e| arc_of(e)).collect();
+            guard("add_edges", || g.add_edges(v))
+        }
         Op::AddEdgeTuples(ts) => guard("add_edge_tuples", || g.add_edge_tuples(ts.clone())),
     }
 }
@@ -396,7 +438,8 @@ pub fn step(lock: &mut Lock, op: &Op, mon: &Monitors, opi: usize) -> bool {
     } else {
         None
     };
-    let res = real_apply(&mut lock.g, op);
+    let reuse = lock.names.len() % 2 == 0; // half of the histories re-use Arcs of identical edges
+    let res = real_apply_cached(&mut lock.g, op, &mut lock.arcs, reuse);
     ctx::eval(1);
     let res = match res {
         Ok(r) => r,
@@ -841,6 +884,54 @@ pub fn check_queries(g: &G, m: &Model, names: &[String], order_known: bool, prop
             }
         }
     }
+    // node lists with repeated names, also longer than the node list itself
+    if nn >= 2 {
+        let lists: Vec<Vec<String>> = vec![
+            vec![names[0].clone(), names[1].clone(), names[0].clone()],
+            std::iter::repeat(names[0].clone()).take(m.nodes.len() + 2).collect(),
+            (0..(m.nodes.len() + 3)).map(|i| names[i % 2].clone()).collect(),
+        ];
+        for list in lists {
+            let all_present = list.iter().all(|s| m.has_node(s));
+            let sset: BTreeSet<&String> = list.iter().collect();
+            ctx::count("reach:node-list-with-repeated-names");
+            if let Some(h) = call!("has_nodes", g.has_nodes(&list)) {
+                if h != all_present {
+                    q.fail("has_nodes", "wrong-answer-for-list-with-repeats", json!({"list": list, "got": h}));
+                }
+            }
+            let want_any: Vec<String> = {
+                let mut v: Vec<String> = m.edges.iter().filter(|e| sset.contains(&e.u) || sset.contains(&e.v)).map(|e| ekey(d, &e.u, &e.v, e.w, &e.attr)).collect();
+                v.sort();
+                v
+            };
+            if let Some(r) = call!("get_edges_for_nodes", g.get_edges_for_nodes(&list).map(|es| sorted_edge_keys(d, es)).map_err(|e| e.kind)) {
+                if !all_present {
+                    q.expect_err("get_edges_for_nodes", r.as_ref().err(), &["NodeNotFound"], json!(list));
+                } else {
+                    match r {
+                        Ok(k) if k == want_any => {}
+                        Ok(k) => q.fail("get_edges_for_nodes", "differs-from-edge-multiset-for-list-with-repeats", json!({"list": list, "got": k, "want": want_any})),
+                        Err(k) => q.fail("get_edges_for_nodes", &format!("error-on-existing-nodes:{}", err_name(&k)), json!(list)),
+                    }
+                }
+            }
+            if d && all_present {
+                let want_in: Vec<String> = {
+                    let mut v: Vec<String> = m.edges.iter().filter(|e| sset.contains(&e.v)).map(|e| ekey(d, &e.u, &e.v, e.w, &e.attr)).collect();
+                    v.sort();
+                    v
+                };
+                if let Some(Ok(k)) = call!("get_in_edges_for_nodes", g.get_in_edges_for_nodes(&list).map(|es| sorted_edge_keys(d, es)).map_err(|e| e.kind)) {
+                    if k != want_in {
+                        q.fail("get_in_edges_for_nodes", "differs-from-edge-multiset-for-list-with-repeats", json!({"list": list}));
+                    }
+                } else {
+                    q.fail("get_in_edges_for_nodes", "error-for-list-with-repeats", json!({"list": list}));
+                }
+            }
+        }
+    }
     // undirected graphs where name order != position order for some stored edge
     if !d {
         let pos: BTreeMap<&String, usize> = m.nodes.iter().enumerate().map(|(i, n)| (&n.0, i)).collect();
@@ -1082,6 +1173,7 @@ pub fn run_history(specs: Specs, names: &[String], ops: &[Op], mon: &Monitors) -
         order_known: true,
         names: all_names,
         tags: BTreeSet::new(),
+        arcs: std::collections::HashMap::new(),
     };
     for (i, op) in ops.iter().enumerate() {
         if !step(&mut lock, op, mon, i) {
